@@ -97,6 +97,30 @@ def unparse(node: ast.AST) -> str:
     return " ".join(s.split())
 
 
+class _Deannotate(ast.NodeTransformer):
+    """`x: T = v` is `x = v` and a bare declaration `x: T` is nothing, everywhere except in the bodies of record classes
+    (NamedTuple / dataclass / TypedDict), where the annotated names are the fields.  The annotation is kept as `.annotation`
+    on the new node for rules that want to read it."""
+
+    def visit_ClassDef(self, node: ast.ClassDef):
+        bases = {ast.unparse(b).split(".")[-1].split("[")[0] for b in node.bases}
+        decos = {ast.unparse(d).split("(")[0].split(".")[-1] for d in node.decorator_list}
+        if bases & {"NamedTuple", "TypedDict", "Protocol"} or "dataclass" in decos:
+            # methods of a record class are ordinary code
+            node.body = [self.visit(st) if isinstance(st, (ast.FunctionDef, ast.AsyncFunctionDef)) else st for st in node.body]
+            return node
+        return self.generic_visit(node)
+
+    def visit_AnnAssign(self, node: ast.AnnAssign):
+        self.generic_visit(node)
+        if node.value is None:
+            new = ast.Pass()
+        else:
+            new = ast.Assign(targets=[node.target], value=node.value, type_comment=None)
+        new.annotation = node.annotation
+        return ast.copy_location(new, node)
+
+
 class Repo:
     """All of /repo/opfython parsed with `ast`; nothing is imported."""
 
@@ -130,6 +154,7 @@ class Repo:
                     tree = ast.parse(src, filename=rel)
                 except SyntaxError as exc:
                     raise AnalysisError(f"{rel} does not parse: {exc}") from exc
+                tree = _Deannotate().visit(tree)
                 modname = rel[:-3].replace(os.sep, ".")
                 if modname.endswith(".__init__"):
                     modname = modname[: -len(".__init__")]
@@ -171,15 +196,56 @@ class Repo:
         if mi is None:
             raise AnalysisError("opfython/utils/constants.py missing")
         out: Dict[str, object] = {}
+        # enum classes defined in the module (`class Color(enum.IntEnum): WHITE = 0 ...`): member -> literal value; an
+        # `auto()` member takes the value Python gives it (previous integer + 1, starting at 1)
+        enums: Dict[str, Dict[str, object]] = {}
         for node in mi.tree.body:
-            if isinstance(node, ast.Assign) and len(node.targets) == 1 and isinstance(
-                node.targets[0], ast.Name
-            ):
-                name = node.targets[0].id
-                try:
-                    out[name] = ast.literal_eval(node.value)
-                except Exception:
-                    out[name] = ("expr", unparse(node.value))
+            if isinstance(node, ast.ClassDef) and any(unparse(b).split(".")[-1] in ("IntEnum", "Enum", "IntFlag") for b in node.bases):
+                members: Dict[str, object] = {}
+                last = 0
+                for st in node.body:
+                    if isinstance(st, ast.Assign) and len(st.targets) == 1 and isinstance(st.targets[0], ast.Name):
+                        try:
+                            val = ast.literal_eval(st.value)
+                        except Exception:
+                            txt = unparse(st.value).replace(" ", "")
+                            val = last + 1 if txt in ("auto()", "enum.auto()") else ("expr", unparse(st.value))
+                        members[st.targets[0].id] = val
+                        if isinstance(val, int):
+                            last = val
+                enums[node.name] = members
+        bindings: List[Tuple[str, ast.AST]] = []
+        for node in mi.tree.body:
+            if isinstance(node, ast.Assign) and len(node.targets) == 1 and isinstance(node.targets[0], ast.Name):
+                bindings.append((node.targets[0].id, node.value))
+            elif isinstance(node, ast.AnnAssign) and isinstance(node.target, ast.Name) and node.value is not None:
+                bindings.append((node.target.id, node.value))  # `NIL: Final[int] = -1`
+            elif isinstance(node, ast.Assign) and len(node.targets) == 1 and isinstance(node.targets[0], ast.Tuple) \
+                    and all(isinstance(e, ast.Name) for e in node.targets[0].elts):
+                names = [e.id for e in node.targets[0].elts]
+                if isinstance(node.value, ast.Tuple) and len(node.value.elts) == len(names):
+                    bindings.extend(zip(names, node.value.elts))  # `WHITE, GRAY, BLACK = Color.WHITE, Color.GRAY, Color.BLACK`
+                elif isinstance(node.value, ast.Name) and node.value.id in enums and len(enums[node.value.id]) == len(names):
+                    # `WHITE, GRAY, BLACK = Color`: an enum class iterates its members in definition order
+                    for nm, member in zip(names, enums[node.value.id]):
+                        bindings.append((nm, ast.Attribute(value=ast.Name(id=node.value.id, ctx=ast.Load()), attr=member, ctx=ast.Load())))
+        for name, value in bindings:
+            try:
+                out[name] = ast.literal_eval(value)
+            except Exception:
+                v = ("expr", unparse(value))
+                # `WHITE = Color.WHITE` / `WHITE = Color.WHITE.value` / `int(Color.WHITE)`: the member's integer
+                core = value
+                if isinstance(core, ast.Call) and isinstance(core.func, ast.Name) and core.func.id == "int" and len(core.args) == 1:
+                    core = core.args[0]
+                if isinstance(core, ast.Attribute) and core.attr == "value":
+                    core = core.value
+                if isinstance(core, ast.Attribute) and isinstance(core.value, ast.Name) and core.value.id in enums \
+                        and core.attr in enums[core.value.id] and not isinstance(enums[core.value.id][core.attr], tuple):
+                    v = enums[core.value.id][core.attr]
+                elif isinstance(core, ast.Name) and core.id in out:
+                    v = out[core.id]  # an alias of an earlier constant
+                out[name] = v
         return out
 
     # -- lookup ------------------------------------------------------------
